@@ -179,3 +179,11 @@ def write_lean(path):
 if __name__ == "__main__":
     import sys
     write_lean(sys.argv[1])
+
+
+# MSM header epoch field per constellation (RTCM 10403.3 MSM header, "GNSS Epoch Time"): GPS / SBAS share
+# the GPS epoch DF004; GLONASS splits its epoch into day-of-week DF416 and time-of-day DF034 (the epoch
+# time proper); Galileo DF248; QZSS DF428; BeiDou DF427; NavIC/IRNSS DF546.  Constellation names as pyrtcm
+# spells them.
+MSM_EPOCH = {107: ("GPS", "DF004"), 108: ("GLONASS", "DF034"), 109: ("GALILEO", "DF248"), 110: ("SBAS", "DF004"),
+             111: ("QZSS", "DF428"), 112: ("BEIDOU", "DF427"), 113: ("NAVIC", "DF546")}
